@@ -83,9 +83,35 @@ class Node:
 
 
 def data():
-    return {"f": f, "seq": [1, 0, 2], "one": [3], "aseq": ASeq([1, 0, 2]), "c": True, "d": False,
-            "tree": [Node(1, [Node(2)]), Node(0)], "layout": "base", "layout2": "mid", "incname": "inc",
-            "incname2": "incf"}
+    d = {"f": f, "seq": [1, 0, 2], "one": [3], "aseq": ASeq([1, 0, 2]), "c": True, "d": False,
+         "tree": [Node(1, [Node(2)]), Node(0)], "layout": "base", "layout2": "mid", "incname": "inc",
+         "incname2": "incf", "tup": (1, 0, 2), "rng": range(3), "keys": {1: "a", 0: "b", 2: "c"}.keys()}
+    d.update(one_shot_data())
+    return d
+
+
+def _count(items):
+    for i in items:
+        yield i
+
+
+def _gnode(v, c=()):
+    n = Node(v)
+    n.c = c
+    return n
+
+
+def one_shot_data():
+    """Loop data of the kinds that can be consumed only once - sync generator objects (generator
+    expression, generator function) and plain iterators - made afresh for every run.  They go through
+    the same `auto_aiter` / `AsyncLoopContext` adaptation as lists, by another branch of it."""
+    return {"gseq": (i for i in [1, 0, 2]), "gseq2": _count([1, 0, 2]), "gone": (i for i in [3]),
+            "itseq": iter([1, 0, 2]), "itseq2": iter((1, 0, 2)),
+            "gtree": (n for n in [_gnode(1, (m for m in [_gnode(2)])), _gnode(0)])}
+
+
+# names of loop data by kind (the composer picks among them)
+SYNC_DATA = ["seq", "one", "tup", "rng", "keys", "gseq", "gseq2", "gone", "itseq", "itseq2"]
 
 
 AUX = {
@@ -95,6 +121,7 @@ AUX = {
     "inc": "I{{ f() }}J",
     "incf": "{% for i in seq if i %}<{{ f() }}>{% endfor %}",
     "incb": "{% block q %}q{{ f() }}{% endblock %}{{ self.q() }}",
+    "incg": "{% for i in gseq2 %}<{{ i }}{{ f() }}>{% endfor %}",
     "mod": "{% macro mf() %}M{{ f() }}{% endmacro %}{% macro mg() %}{% for i in seq if i %}g{{ f() }}{% endfor %}{% endmacro %}m{{ f() }}",
 }
 
@@ -150,6 +177,16 @@ CORE = [
     ("dyninclude", "a{% include incname %}b{{ f() }}{% include incname2 %}"),
     ("dyninclude_inloop", "{% for i in seq if i %}{% include incname %}{% endfor %}"),
     ("continue", "{% for i in seq if i %}{% if i == 1 %}{% continue %}{% endif %}{{ f() }}{% endfor %}"),
+    # loop data that is a sync generator / a plain iterator / another builtin iterable: plain, extended
+    # (AsyncLoopContext) and filtered loops, left early by the consumer, a cancellation, a fault or a break
+    ("gloop", "{% for i in gseq %}[{{ i }}{{ f() }}]{% endfor %}x{{ f() }}"),
+    ("gloop_ext", "{% for i in gseq2 %}{{ loop.index }}{{ f() }}{% endfor %}x"),
+    ("gloopfilter_ext", "{% for i in gseq if i %}{{ loop.index }}:{{ i }}{{ f() }}{% endfor %}x"),
+    ("gloop_break", "{% for i in gseq %}{{ i }}{% if i == 0 %}{% break %}{% endif %}{{ f() }}{% endfor %}z{{ f() }}"),
+    ("itloop", "{% for i in itseq %}[{{ i }}]{% for j in rng if j %}{{ f() }}{% endfor %}{% endfor %}"),
+    ("gloop_inblock_include", "{% extends 'base' %}{% block a %}{% for i in gseq %}[{{ i }}]{% include 'inc' %}{% endfor %}{% endblock %}"),
+    ("gloop_macro", "{% macro m(s) %}{% for i in s %}{{ f() }}{% endfor %}{% endmacro %}a{{ m(gseq) }}b{% include 'incg' %}"),
+    ("grecursive", "{% for n in gtree recursive %}{{ n.v }}{{ f() }}{% if n.c %}{{ loop(n.c) }}{% endif %}{% endfor %}"),
     ("block_set_include", "{% block x %}{% set y %}{% include 'inc' %}{% endset %}{{ y }}{% endblock %}"),
 ]
 
@@ -192,11 +229,12 @@ class Gen:
             elif k == "f":
                 out.append("{{ f() }}")
             elif k == "for":
-                out.append("{% for i in " + r.choice(["seq", "one"]) + " %}" + sub(in_loop=True) + "{% endfor %}")
+                out.append("{% for i in " + r.choice(SYNC_DATA) + " %}" + sub(in_loop=True) + "{% endfor %}")
             elif k == "forif":
-                out.append("{% for i in " + r.choice(["seq", "one", "aseq"]) + " if i %}" + sub(in_loop=True) + "{% endfor %}")
+                out.append("{% for i in " + r.choice(SYNC_DATA + ["aseq", "aseq"]) + " if i %}" + sub(in_loop=True) + "{% endfor %}")
             elif k == "forext":
-                out.append("{% for i in seq if i %}{{ loop.index }}" + sub(in_loop=True) + "{% endfor %}")
+                out.append("{% for i in " + r.choice(["seq", "seq", "gseq", "itseq", "keys"]) + r.choice([" if i", " if i", ""])
+                           + " %}{{ loop.index }}" + sub(in_loop=True) + "{% endfor %}")
             elif k == "afor":
                 out.append("{% for i in aseq %}" + sub(in_loop=True) + "{% endfor %}")
             elif k == "if":
@@ -212,7 +250,7 @@ class Gen:
             elif k == "incn":
                 out.append("{% include 'inc' without context %}")
             elif k == "incf":
-                out.append("{% include '" + r.choice(["incf", "incb"]) + "' %}")
+                out.append("{% include '" + r.choice(["incf", "incb", "incg"]) + "' %}")
             elif k == "set":
                 v = self.uid("v")
                 out.append("{% set " + v + " %}" + sub(blocks_ok=False) + "{% endset %}{{ " + v + " }}")
@@ -315,6 +353,9 @@ def site_kind(short):
 
 
 def run_one(env, prog, mode, plan=None, stop=None):
+    # one-shot loop data (generators, iterators) is made afresh for every run; templates see the
+    # environment's globals through a ChainMap, so includes without context and imported modules do too
+    env.globals.update(one_shot_data())
     t = env.get_template("main")
     r = Runner(t, {}, mode, plan, stop)
     r.run(set(prog["templates"]))
